@@ -31,7 +31,7 @@ import (
 // NAME stands for a function name unique to the template instance.
 type tmpl struct {
 	name    string
-	typ     byte // 'i', 'l', 'a', 'r'
+	typ     byte   // 'i', 'l', 'a', 'r'
 	family  string // what the template exercises (the form name, or the interaction for composite templates)
 	src     string
 	rank    int // 2 = spine subset, 1 = core subset, 0 = the rest (subsets are used where the full alphabet is too large)
@@ -54,7 +54,7 @@ type envVar struct {
 
 var templateSrc = []struct {
 	name, typ, family, src string
-	rank                   int // 3 = deep subset, 2 = spine subset, 1 = core subset, 0 = the rest
+	rank                   int // 4 = deepest subset, 3 = deep subset, 2 = spine subset, 1 = core subset, 0 = the rest
 }{
 	{"add", "i", "+", "(+ ?i ?i)", 1},
 	{"sub", "i", "-", "(- ?i ?i ?i)", 0},
@@ -63,9 +63,9 @@ var templateSrc = []struct {
 	{"len", "i", "length", "(length ?l)", 0},
 	{"pg0", "l", "progn", "(progn)", 0},
 	{"pg1", "r", "progn", "(progn ?r)", 0},
-	{"pg2", "r", "progn", "(progn ?a ?r)", 3},
+	{"pg2", "r", "progn", "(progn ?a ?r)", 4},
 	{"pr1", "r", "prog1", "(prog1 ?r ?a ?a)", 1},
-	{"ift", "r", "if", "(if ?t ?r ?r)", 3},
+	{"ift", "r", "if", "(if ?t ?r ?r)", 4},
 	{"iff", "r", "if", "(if ?f ?r ?r)", 1},
 	{"i2t", "a", "if", "(if ?t ?a)", 0},
 	{"i2f", "a", "if", "(if ?f ?a)", 0},
@@ -91,7 +91,7 @@ var templateSrc = []struct {
 	{"orn", "a", "or", "(or ?f ?f)", 0},
 	{"or0", "l", "or", "(or)", 0},
 	{"lt1", "r", "let", "(let ((x ?i)) ?r+x)", 0},
-	{"lt2", "r", "let", "(let ((x ?i) (y ?i)) ?a+x+y ?r+x+y)", 3},
+	{"lt2", "r", "let", "(let ((x ?i) (y ?i)) ?a+x+y ?r+x+y)", 4},
 	{"lts", "l", "let-shadowing", "(let ((x ?i) (y ?i)) (let ((x ?i+x+y) (y ?i+x+y)) (list x y ?a+x+y)))", 1},
 	{"ltn", "l", "let-no-init", "(let (x (y)) (list x y ?a+x?+y?))", 0},
 	{"ls2", "r", "let*", "(let* ((x ?i) (y ?i+x)) ?a+x+y ?r+x+y)", 2},
@@ -101,7 +101,7 @@ var templateSrc = []struct {
 	{"sq1", "l", "setq", "(let ((x ?i)) (list (setq x ?i+x) x ?a+x x))", 2},
 	{"sq2", "l", "setq-pairs", "(let ((x ?i) (y ?i)) (list (setq x ?i+x+y y ?i+x+y) x y))", 0},
 	{"sqo", "i", "setq-outer-variable", "(let ((x ?i)) (let ((y ?i+x)) (setq x (+ x y)) ?a+x+y) x)", 1},
-	{"clc", "l", "closure-counter", "(let ((x ?i)) (let ((f (lambda (a) (setq x (+ x a)) ?i+x+a*))) (list (funcall f ?i+x+f&) (funcall f ?i+x+f&) x)))", 3},
+	{"clc", "l", "closure-counter", "(let ((x ?i)) (let ((f (lambda (a) (setq x (+ x a)) ?i+x+a*))) (list (funcall f ?i+x+f&) (funcall f ?i+x+f&) x)))", 4},
 	{"cl2", "l", "closures-sharing-a-variable", "(let ((x ?i)) (let ((f (lambda (a) (setq x (+ x a)))) (g (lambda (a) (* x a)))) (list (funcall f ?i) (funcall g ?i) (funcall f ?i) (funcall g ?i) x)))", 0},
 	{"cls", "l", "closure-called-under-shadowing-let", "(let ((x ?i)) (let ((f (lambda (a) (+ a x)))) (let ((x ?i+x+f&)) (list (funcall f ?i+x+f&) x))))", 1},
 	{"clw", "l", "closure-assigns-under-shadowing-let", "(let ((x ?i)) (let ((f (lambda (a) (setq x (+ x a))))) (list (let ((x ?i+x+f&)) (list (funcall f ?i+x+f&) x)) x)))", 0},
@@ -113,14 +113,14 @@ var templateSrc = []struct {
 	{"lmc", "r", "lambda-form-call", "((lambda (a b) ?a+a+b* ?r+a+b*) ?i ?i)", 2},
 	{"lmf", "r", "funcall-lambda", "(funcall (lambda (a b) ?r+a+b*) ?i ?i)", 0},
 	{"lms", "r", "funcall-sharp-quote-lambda", "(funcall #'(lambda (a) ?r+a*) ?i)", 0},
-	{"dfc", "r", "defun", "(let () (defun NAME (a b) ?a+a+b* ?r+a+b*) (NAME ?i ?i))", 3},
+	{"dfc", "r", "defun", "(let () (defun NAME (a b) ?a+a+b* ?r+a+b*) (NAME ?i ?i))", 4},
 	{"dfr", "l", "defun-recursive", "(let () (defun NAME (n) (if (= n 0) (list ?a+n*) (cons ?a+n* (NAME (- n 1))))) (NAME ?c))", 1},
 	{"df2", "l", "defun-called-twice", "(let () (defun NAME (a) ?a+a*) (list (NAME ?i) (NAME ?i)))", 0},
 	{"dfs", "l", "defun-called-through-designators", "(let () (defun NAME (a b) (list a b ?a+a+b*)) (list (funcall 'NAME ?i ?i) (funcall #'NAME ?i ?i) (apply #'NAME ?i (list ?i))))", 0},
 	{"dfv", "l", "defun-returning-values", "(let () (defun NAME (a b) (values a b ?a+a+b*)) (multiple-value-bind (a b c) (NAME ?i ?i) (list a b c)))", 0},
 	{"dol", "r", "dolist", "(dolist (i ?l ?r+i?) ?a+i?* ?a+i?*)", 1},
 	{"dlr", "l", "dolist-result-form-reads-variable", "(dolist (i ?l (list i ?a+i?)) ?a+i?*)", 0},
-	{"dot", "r", "dotimes", "(dotimes (i ?c ?r+i!) ?a+i!* ?a+i!*)", 3},
+	{"dot", "r", "dotimes", "(dotimes (i ?c ?r+i!) ?a+i!* ?a+i!*)", 4},
 	{"dt0", "r", "dotimes-zero", "(dotimes (i ?0 ?r+i!) ?a+i!*)", 0},
 	{"dtn", "a", "dotimes-no-result", "(dotimes (i ?c) ?a+i!*)", 0},
 	{"dop", "l", "do", "(do ((u 0 (+ u 1)) (v ?i u)) ((<= 2 u) (list u v ?a+u+v)) ?a+u+v*)", 2},
@@ -457,11 +457,19 @@ func valid(t *term, req byte, sc scope) bool {
 
 // genOpts bounds the enumeration.
 type genOpts struct {
-	coreFrom  int  // templates at nesting depth >= coreFrom (root = 1) come from the core subset only; 0 = never
-	spineFrom int  // templates at nesting depth >= spineFrom come from the spine subset only; 0 = never
-	deepFrom  int  // templates at nesting depth >= deepFrom come from the deep subset only; 0 = never
-	spine     bool // at most one non-default hole per node ("spines")
-	maxDepth  int
+	rankAt   []int // minimum template rank per nesting depth (root = index 0); the last entry holds for all deeper levels; nil = 0
+	spine    bool  // at most one non-default hole per node ("spines")
+	maxDepth int
+}
+
+func (o genOpts) minRank(depth int) int {
+	if len(o.rankAt) == 0 {
+		return 0
+	}
+	if len(o.rankAt) < depth {
+		return o.rankAt[len(o.rankAt)-1]
+	}
+	return o.rankAt[depth-1]
 }
 
 type generator struct {
@@ -507,13 +515,7 @@ func (g *generator) gen(req byte, sc scope, dev, depth int, emit func(string)) {
 		if !fits(tp.typ, req) || (tp.defines && sc.rep) {
 			continue
 		}
-		if g.opts.coreFrom != 0 && g.opts.coreFrom <= depth && tp.rank < 1 {
-			continue
-		}
-		if g.opts.spineFrom != 0 && g.opts.spineFrom <= depth && tp.rank < 2 {
-			continue
-		}
-		if g.opts.deepFrom != 0 && g.opts.deepFrom <= depth && tp.rank < 3 {
+		if tp.rank < g.opts.minRank(depth) {
 			continue
 		}
 		if len(tp.holes) == 0 {
